@@ -76,6 +76,7 @@ class RunState:
         self.job_outputs: dict[str, list[str]] = {}  # job -> output paths written
         self.lost_jobs: set[str] = set()
         self.barrier = None
+        self.first_transfer: dict[str, str] = {}  # job step name -> name of its first transfer step (fault plans aim at it)
         # read-only transfers to a site with its own storage leave a physical replica: replica path -> path it copies
         self.replica_of: dict[str, str] = {}
         self.truly_lost: set[str] = set()  # lost jobs with at least one output of which no copy at all was left
@@ -398,7 +399,9 @@ class PlanTransferStep(TransferStep):
                     dst_locations=dst_locations, dst_path=dst_path, writable=not readonly)
                 if readonly and not os.path.islink(dst_path) and os.path.exists(dst_path):
                     RUN.replica_of[dst_path] = RUN.replica_of.get(source_location.path, source_location.path)
-            except (WorkflowExecutionException, OSError) as err:
+            except (WorkflowExecutionException, OSError, RuntimeError) as err:
+                # RuntimeError: transfer_data called with an empty location list (the job was rolled back meanwhile and its
+                # allocation cleared): `next(iter(dst_locations))` raises StopIteration inside the coroutine
                 RUN.failure_log.append((job.name, "transfer", f"collateral:{type(err).__name__}"))
                 RUN.fail_sites.append((job.name, self.name))
                 raise WorkflowExecutionException(f"Job {job.name} failed transfer: {err}")
@@ -422,6 +425,12 @@ class PlanTransferStep(TransferStep):
         return t
 
     async def transfer(self, job: Job, token: Token) -> Token:
+        # a job with several inputs has several transfer steps: the fault plan's "transfer" phase means the FIRST of them
+        # (by name); attempts and injected failures are counted on that step only, the siblings just transfer
+        first = RUN.first_transfer.get(self.name.rsplit("/__transfer__/", 1)[0])
+        if first is not None and self.name != first:
+            await _gate(f"xfer:{job.name}:{self.name.rsplit('/', 1)[1]}")
+            return await self._transfer(job, token)
         n, fault = RUN.hit(job.name, "transfer")
         if fault is not None:
             RUN.failure_log.append((job.name, "transfer", fault["kind"]))
@@ -636,6 +645,8 @@ class WB:
             **({k: d for k, d in zip(("input_directory", "output_directory", "tmp_directory"), dirs) if d} if dirs else {}))
         ex = self.wf.create_step(ExecuteStep, name=name, job_port=sched.get_output_port())
         ex.command = GateCommand(ex, op=op)
+        if RUN is not None and ports:
+            RUN.first_transfer[name] = posixpath.join(name, "__transfer__", min(ports))
         for k, p in ports.items():
             sched.add_input_port(k, p)
             t = self.wf.create_step(PlanTransferStep, name=posixpath.join(name, "__transfer__", k),
